@@ -720,6 +720,14 @@ class Interp:
                 bz = d.lift(b)
                 if self.run.branch(bz.t == d.const(0).t):
                     py_raise('ZeroDivisionError', 'integer division or modulo by zero')
+                if isinstance(d, IntDom):
+                    # Python's % and // follow the sign of the divisor; when the path fixes that sign the term is the plain
+                    # SMT mod / div (no case split left for the solver)
+                    az = d.lift(a)
+                    if self.run.entails(bz.t > 0):
+                        return Sym('int', az.t % bz.t if op is ast.Mod else az.t / bz.t)
+                    if self.run.entails(bz.t < 0):
+                        return Sym('int', -((-az.t) % (-bz.t)) if op is ast.Mod else (-az.t) / (-bz.t))
                 return d.mod_sym(d.lift(a), bz) if op is ast.Mod else d.floordiv_sym(d.lift(a), bz)
             if b == 0:
                 py_raise('ZeroDivisionError', 'integer division or modulo by zero')
